@@ -852,6 +852,9 @@ impl TransactionBuilder {
                 )));
             }
             self.collateral_return = Some(return_output);
+        } else {
+            // nothing is returned: a return output left by an earlier call would not match the new total
+            self.collateral_return = None;
         }
         self.set_total_collateral(total_collateral);
 
